@@ -331,6 +331,10 @@ func vRunC13(c *vCase) {
 	nbases := 0
 	if vChance(r, 0.5) {
 		nbases = 1 + r.Intn(8)
+		if n <= 40 && vChance(r, 0.2) {
+			nbases = n // as many components as samples: projectors and basis are both square
+			c.Cov("square_models", 1)
+		}
 	}
 	c.Describe("C13 npre=%d n=%d signed=%v kind=%d nbases=%d head=%v", npre, n, signed, kind, nbases, data[:3])
 	c.Distinct("kind", kind)
@@ -364,7 +368,10 @@ func vRunC13(c *vCase) {
 		}
 		P = mat.NewDense(nbases, n, pd)
 		B = mat.NewDense(n, nbases, bd)
-		if err := dsp.SetProjectorsBasis(P, B, "verif"); err != nil {
+		// loaded the way a request loads it: through the source's ConfigureProjectorsBases
+		src := &AnySource{}
+		src.processors = []*DataStreamProcessor{dsp}
+		if err := src.ConfigureProjectorsBases(0, P, B, "verif"); err != nil {
 			c.Violate("c13:projectors-rejected", "SetProjectorsBasis rejected matrices of compatible shape %dx%d / %dx%d: %v", nbases, n, n, nbases, err)
 			return
 		}
